@@ -94,6 +94,9 @@ def graphs(tier, rng):
             out.append(list(combo))
     # self and mutual imports, also of the main module
     out += [[[1], [1]], [[1], [2], [1]], [[1], [2], [3], [1]], [[1, 2], [2], [1]], [[1], [0]]]
+    # independent modules below an imported module: initialised in the textual order of that module's import statements
+    out += [[[1], [2, 3], [], []], [[1], [3, 2], [], []], [[1], [4, 2, 3], [], [], []], [[1], [2, 3, 4, 5, 6], [], [], [], [], []], [[1], [6, 5, 4, 3, 2], [], [], [], [], []],
+            [[2, 1], [4, 3], [5, 6, 3], [], [], [], []]]
     per4 = [options(i, 4, False) for i in range(4)]
     all4 = [list(c) for c in itertools.product(*per4)]
     out += rng.sample(all4, min(len(all4), 150 if tier == "quick" else 3000))
